@@ -82,6 +82,17 @@ def run(vlib, module, constants, log_path, kind, wd, n=3, seed=1, max_lines=4000
                 break
         base = base[:cut]
     res = {"mutated": 0, "rejected": 0, "cases": []}
+    # verdicts the UNcorrupted prefix already has (known findings): a corruption counts as rejected only by a NEW verdict
+    bpath = os.path.join(wd, "s5_%s_base.ndjson" % kind)
+    with open(bpath, "w") as f:
+        for x in base:
+            e = json.loads(x)
+            if e.get("ev") == "Reset" and isinstance(e.get("next"), int) and e["next"] > len(base) + 1:
+                e["next"] = len(base) + 1
+            f.write(json.dumps(e) + "\n")
+    rb = vlib.validate_trace(module, bpath, wd, constants, name="s5_%s_base" % kind)
+    os.remove(bpath)
+    known = set((v["class"], v["why"], v["line"]) for v in rb["verdicts"])
     for k in range(n):
         lines = [json.loads(x) for x in base]
         # a cut chunk log must stay self-contained
@@ -96,7 +107,9 @@ def run(vlib, module, constants, log_path, kind, wd, n=3, seed=1, max_lines=4000
             for e in lines:
                 f.write(json.dumps(e) + "\n")
         r = vlib.validate_trace(module, path, wd, constants, name="s5_%s_%d" % (kind, k))
-        rejected = len(r["verdicts"]) > 0
+        fresh = [v for v in r["verdicts"] if (v["class"], v["why"], v["line"]) not in known]
+        r["verdicts"] = fresh
+        rejected = len(fresh) > 0
         res["mutated"] += 1
         res["rejected"] += 1 if rejected else 0
         res["cases"].append({"corruption": what, "rejected": rejected,
